@@ -1778,12 +1778,38 @@ func genFanIn(prop string) func(tier string, seed uint64, idx int) interface{} {
 		nc := npub + nsub
 		x.seq = make([]int, nc)
 		x.pid = make([]int, nc) // all publishers start at identifier 1
+		if r.Bool(1, 3) {
+			// the identifiers the broker assigns on each subscriber connection wrap
+			// around after a few deliveries
+			x.sc.Knobs.SvcPIDStart = uint32(65535 - r.Intn(14))
+		}
+		// a fifth of the scripts: a subscriber with a persistent session drops its
+		// connection and resumes the session while the publishers keep sending
+		// packets larger than one write block of the sender (8 KiB)
+		resume := r.Bool(1, 5)
+		if resume {
+			x.sc.Knobs.BufSize, x.sc.Knobs.BufCfg = 65536, 0
+		}
 		for ci := 0; ci < nsub; ci++ {
 			cl := Client{}
 			if r.Bool(1, 4) {
 				cl.AckMode = "none"
 			}
 			f := []string{"f/#", "f/+", "#"}[r.Intn(3)]
+			if resume && ci == 0 {
+				c1 := x.connect(ci, false)
+				c1.Will = nil
+				cl.Ops = append(cl.Ops, c1, Op{K: "sub", PID: 1, Filters: []string{f}, QoSs: []byte{byte(r.Intn(3))}}, Op{K: "barrier"})
+				for k := 1 + r.Intn(3); k > 0; k-- {
+					if r.Bool(1, 2) {
+						cl.Ops = append(cl.Ops, Op{K: "ping"})
+					}
+					cl.Ops = append(cl.Ops, Op{K: []string{"close", "rst", "disc"}[r.Intn(3)]}, c1, Op{K: "ping"})
+				}
+				cl.Ops = append(cl.Ops, Op{K: "barrier"}, Op{K: "ping"})
+				x.sc.Clients = append(x.sc.Clients, cl)
+				continue
+			}
 			cl.Ops = append(cl.Ops, x.connect(ci, true), Op{K: "sub", PID: 1, Filters: []string{f}, QoSs: []byte{byte(r.Intn(3))}}, Op{K: "barrier"})
 			if r.Bool(1, 3) {
 				cl.Ops = append(cl.Ops, Op{K: "stall"}, Op{K: "sleep", D: 0}, Op{K: "sleep", D: 0}, Op{K: "resume"})
@@ -1824,6 +1850,9 @@ func genFanIn(prop string) func(tier string, seed uint64, idx int) interface{} {
 				sz := x.size()
 				if r.Bool(1, 2) {
 					sz = 1500 + r.Intn(3000)
+				}
+				if resume && r.Bool(2, 3) {
+					sz = 8500 + r.Intn(12000)
 				}
 				op := Op{K: "pub", Topic: topic, QoS: byte(r.Intn(3)), Size: sz, Seq: x.seq[ci], NoWait: r.Bool(1, 2)}
 				if op.QoS > 0 {
